@@ -77,8 +77,10 @@ def stepInj (ws : List String) (impl : String) : String :=
       let src := untok srcTok
       let kv := words impl
       let validM := String.ofList (conns.map fun c => if validate c then '1' else '0')
-      if field kv "valid" != some validM then s!"DIFF model=valid={validM}" else
-      let store : Store := order.filterMap fun n => (conns.find? fun c => c.name == n && validate c).map fun c => (n, c)
+      -- the property speaks about the connectors the *implementation's* validation accepted
+      let validI := ((field kv "valid").getD "").toList
+      let accepted := (conns.zip validI).filterMap fun (c, f) => if f == '1' then some c else none
+      let store : Store := order.filterMap fun n => (accepted.find? fun c => c.name == n).map fun c => (n, c)
       let outM := inject src store
       let expected := (findMissing src).filterMap fun n => (store.find? fun e => e.1 == n).map (·.2)
       let implDecls := match field kv "decls" with
@@ -90,8 +92,7 @@ def stepInj (ws : List String) (impl : String) : String :=
       let j : Option String :=
         if !srcParses then none
         else if field kv "parse" != some "ok" then
-          if expected.isEmpty && (field kv "rest") == some "na" then none
-          else some "the injected source does not parse although the pipeline's own source does"
+          some "the injected source does not parse although the pipeline's own source does"
         else if implDecls.length != expected.length then some s!"{expected.length} declarations injected, {implDecls.length} read back"
         else
           match (expected.zip implDecls).filterMap fun (c, d) => judgeDecl c d with
@@ -100,7 +101,8 @@ def stepInj (ws : List String) (impl : String) : String :=
       match j with
       | some why => s!"JUDGE C39 {why}"
       | none =>
-        if field kv "out" != some (":" ++ encT outM) then s!"DIFF model=out=:{encT outM}"
+        if field kv "valid" != some validM then s!"DIFF model=valid={validM}"
+        else if field kv "out" != some (":" ++ encT outM) then s!"DIFF model=out=:{encT outM}"
         else if srcParses && field kv "parse" == some "ok" then
           -- the model's reading of each rendered declaration against the real parser's
           let modelDecls := expected.map fun c => match connectorDecl (render c) with
